@@ -48,7 +48,8 @@ class Modes(Stage):
         text = '\n'.join(lines) + ('\n' if final_newline else '')
         data = text.encode('utf-8')
         return dict(text=text, chunks=[gen_chunks(d, data), gen_chunks(d, data)], exit=d.choice([0, 0, 1, 2, 7, 99, 127, 255, d.int(0, 255)]),
-                    argv=[d.choice(ARGS) for _ in range(d.int(0, 5))], marker=d.int(0, 9999), supress=d.chance(0.2), filter=d.choice([None, None, 'wl_display', '* ! .bind']))
+                    argv=[d.choice(ARGS) for _ in range(d.int(0, 5))], marker=d.int(0, 9999), supress=d.chance(0.2), filter=d.choice([None, None, 'wl_display', '* ! .bind']),
+                    nmsg=len(specs), parent_wayland_debug=d.choice([None, None, '1', 'client', 'server', '0', '']))
 
     def execute(self, case):
         res = Result()
@@ -66,6 +67,18 @@ class Modes(Stage):
             out_f = out_f.replace(PROMPT, b'')
             if rc_f != 0 or rc_p != 0:
                 res.bad('file-or-pipe-mode-exit-status', 'file %r pipe %r: %r' % (rc_f, rc_p, (err_f + err_p)[-300:]))
+            # absolute anchor for the differential: without a filter every message line of the stream is shown (in particular the
+            # last one, also when it has no newline), every other line is passed through unless --supress
+            if not case.get('filter') and 'nmsg' in case:
+                import re as _re
+                shown = len(_re.findall(rb'^\s*-?\d+\.\d{4} \w*: ', out_f, _re.M))
+                if shown != case['nmsg']:
+                    res.bad('file-mode-message-lines', '%d message lines shown for %d in the stream' % (shown, case['nmsg']))
+                others = [l for l in _re.split(r'[\r\n]', case['text'])]
+                nother = len([l for l in case['text'].replace('\r', '\n').split('\n')[:-1 if case['text'].endswith('\n') else None]]) - case['nmsg']
+                passed = len(_re.findall(rb'^       \|  ', out_f, _re.M))
+                if not case.get('supress') and passed != nother:
+                    res.bad('file-mode-passthrough-lines', '%d lines passed through, %d non-message lines in the stream' % (passed, nother))
             if out_f != out_p:
                 res.bad('file-vs-pipe-display', first_diff(out_f, out_p))
             if err_f != err_p:
@@ -75,7 +88,10 @@ class Modes(Stage):
             for k, chunks in enumerate(case['chunks']):
                 report = sc.path('report%d.json' % k)
                 spec = sc.write('spec%d.json' % k, json.dumps(dict(report=report, chunks=chunks, exit=case['exit'], stdout=marker)))
-                rc, out, err = cli.run_main(opts + ['-r', cli.PY, child] + case['argv'], stdin=b'q\n', extra_env=dict(WDV_CHILD_SPEC=spec))
+                extra = dict(WDV_CHILD_SPEC=spec)
+                if case.get('parent_wayland_debug') is not None:
+                    extra['WAYLAND_DEBUG'] = case['parent_wayland_debug']     # wayland-debug itself started from such an environment
+                rc, out, err = cli.run_main(opts + ['-r', cli.PY, child] + case['argv'], stdin=b'q\n', extra_env=extra)
                 res.evals += 1
                 if not os.path.exists(report):
                     res.bad('program-not-started', 'rc=%r err=%r' % (rc, err[-300:]))
@@ -107,6 +123,7 @@ class Modes(Stage):
         if any(ord(c) > 127 for c in case['text']): res.label('multi-byte')
         if '\r' in case['text']: res.label('carriage-return-in-chatter')
         if any(a.startswith('-') for a in case['argv']): res.label('option-lookalike-argv')
+        if case.get('parent_wayland_debug') not in (None, '1'): res.label('parent-WAYLAND_DEBUG-set-otherwise')
         res.sample = dict(lines=case['text'].split('\n')[:6], chunks=[len(c) for c in case['chunks']], exit=case['exit'], argv=case['argv'])
         return res
 
